@@ -679,6 +679,7 @@ func TestC43(t *testing.T) {
 			if i := strings.IndexByte(cls, ':'); i > 0 {
 				cls = cls[:i]
 			}
+			rec.LabelN("exc: "+cls, st.errSamples[k])
 			if rec.WantSample("exception " + cls) {
 				rec.Sample("exception "+cls, k)
 			}
